@@ -40,7 +40,9 @@ NRows(tb)   == Len(tb.t)
 \* tb.hastime = FALSE: the stream is given no time array at all (tb.t then only fixes the number of rows);
 \* windows cannot be applied and time-based tests lack a required input
 TimeOf(tb)  == IF tb.hastime THEN tb.t ELSE <<>>
-InWin(tv, w) == (w[1] = NA \/ tv >= w[1]) /\ (w[2] = NA \/ tv < w[2])
+\* a row without a time (NaT) satisfies no bound: it belongs to a context only if that context has no window at all
+InWin(tv, w) == IF tv = NA THEN w[1] = NA /\ w[2] = NA
+                ELSE (w[1] = NA \/ tv >= w[1]) /\ (w[2] = NA \/ tv < w[2])
 Covered(tb, w) == IF tb.hastime THEN { i \in 1..NRows(tb) : InWin(tb.t[i], w) } ELSE 1..NRows(tb)
 Pick(s, S)  == IF s = <<>> THEN <<>>
                ELSE LET idx == SetToSortSeq(S, <) IN [k \in 1..Len(idx) |-> s[idx[k]]]
